@@ -456,8 +456,12 @@ def gen_history(draw):
     steps = []
     n = draw(st.integers(3, 14))
     nobj = 0
+    # identities are compared exactly: names that differ only in case, by a trailing blank or as
+    # a prefix are different identities
+    users = draw(st.sampled_from([USERS, USERS, USERS, ["alice", "Alice", "ALICE"],
+                                  ["bob", "bob ", "Bob"], ["carol", "caro", "carol2"]]))
     for _ in range(n):
-        who = draw(st.sampled_from(USERS))
+        who = draw(st.sampled_from(users))
         groups = draw(st.sampled_from([None, None, [], ["g1"], ["g2"], ["g1", "g2"], ["g3"]]))
         kind = draw(st.sampled_from(["create", "create", "op", "op", "op", "locate", "locate", "batch"])) if nobj else "create"
         if kind == "create":
